@@ -5,6 +5,8 @@
                                      (`expect` = what ES5 demands, clause cited in harness/cmd/c04/early.go)
 -/
 import OttoVerif.C04.EarlySpec
+import OttoVerif.C04.Reserved
+import OttoVerif.Base.Proto
 namespace OttoVerif.C04.Early
 open OttoVerif.C04
 
@@ -68,6 +70,47 @@ def handle2 (ws : List String) : String :=
       verdict (acceptsL {} prog) ++ " " ++ verdict (Spec.earlyOKL {} prog) ++ " " ++
         (if Spec.devContL {} prog then "continue_non_iteration_label" else "-")
     | _ => "bad-request bad-request -"
+  | _ => "bad-request bad-request -"
+
+/-- resv <position> <hex of the spelling>:  position ∈ identifier positions (var fname fexpr param label catch assign forin
+    incr) or property-name positions (dot key getter dotassign);  model = does the scanner model give IDENTIFIER for the decoded
+    spelling, spec = is the decoded spelling a ReservedWord -/
+def handleResv (ws : List String) : String :=
+  match ws with
+  | [pos, h] =>
+    match (OttoVerif.Proto.bytes? (h.drop 1).toString).bind fun bs => String.fromUTF8? (ByteArray.mk (bs.map (·.toUInt8)).toArray) with
+    | some sp =>
+      match Reserved.decode sp.toList with
+      | some cs =>
+        let name := String.ofList cs
+        let prop := pos = "dot" ∨ pos = "key" ∨ pos = "getter" ∨ pos = "dotassign"
+        let model := prop || decide (Reserved.tokenKind name = .identifier)
+        let spec := prop || !Reserved.isReserved name
+        verdict model ++ " " ++ verdict spec ++ " -"
+      | none => "bad-escape bad-escape -"
+    | none => "bad-request bad-request -"
+  | _ => "bad-request bad-request -"
+
+def kindName : Reserved.Kind → String
+  | .identifier => "IDENTIFIER" | .keyword s => s | .future => "KEYWORD" | .boolean => "BOOLEAN" | .null => "NULL"
+
+/-- resvtok <hex of the spelling>: the token kind of the real scanner for the spelling vs the model's / the spec's -/
+def handleResvTok (ws : List String) : String :=
+  match ws with
+  | [h] =>
+    match (OttoVerif.Proto.bytes? (h.drop 1).toString).bind fun bs => String.fromUTF8? (ByteArray.mk (bs.map (·.toUInt8)).toArray) with
+    | some sp =>
+      match Reserved.decode sp.toList with
+      | some cs =>
+        let name := String.ofList cs
+        let model := kindName (Reserved.tokenKind name)
+        let spec := if Reserved.isReserved name then
+            (if name = "null" then "NULL" else if name = "true" ∨ name = "false" then "BOOLEAN"
+             else if ["class", "const", "enum", "export", "extends", "import", "super"].contains name then "KEYWORD" else name)
+          else "IDENTIFIER"
+        model ++ " " ++ spec ++ " -"
+      | none => "bad-escape bad-escape -"
+    | none => "bad-request bad-request -"
   | _ => "bad-request bad-request -"
 
 end OttoVerif.C04.Early
